@@ -500,6 +500,27 @@ func ConstInt(v ssa.Value) (int64, bool) {
 		}
 		break
 	}
+	// go/ssa does not fold arithmetic on constants that only became constants through a lifted local
+	// (limit := maxSize; limit+1 after a helper taking the limit was inlined)
+	if b, isB := v.(*ssa.BinOp); isB {
+		x, okX := ConstInt(b.X)
+		y, okY := ConstInt(b.Y)
+		if okX && okY {
+			switch b.Op {
+			case token.ADD:
+				return x + y, true
+			case token.SUB:
+				return x - y, true
+			case token.MUL:
+				return x * y, true
+			case token.SHL:
+				if y >= 0 && y < 63 {
+					return x << uint(y), true
+				}
+			}
+		}
+		return 0, false
+	}
 	c, ok := v.(*ssa.Const)
 	if !ok || c.Value == nil {
 		return 0, false
